@@ -124,12 +124,19 @@ impl<I: SendmsgSyscall> SendmsgSyscall for NioSendmsgSyscall<I> {
                         if blocking {
                             set_blocking(fd);
                         }
+                        if sent > 0 {
+                            // report what has been transferred so far, not the last call's result
+                            r = sent.try_into().expect("sent overflow");
+                        }
                         return r;
                     }
                 } else if error_kind != ErrorKind::Interrupted {
                     std::mem::forget(vec);
                     if blocking {
                         set_blocking(fd);
+                    }
+                    if sent > 0 {
+                        r = sent.try_into().expect("sent overflow");
                     }
                     return r;
                 }
@@ -141,6 +148,9 @@ impl<I: SendmsgSyscall> SendmsgSyscall for NioSendmsgSyscall<I> {
         std::mem::forget(vec);
         if blocking {
             set_blocking(fd);
+        }
+        if sent > 0 {
+            r = sent.try_into().expect("sent overflow");
         }
         r
     }
